@@ -2,7 +2,7 @@
 from e2 import E2
 FILES = ['src/reader/file_reader.c', 'src/reader/mmap_reader.c', 'src/reader/page_reader.c', 'src/reader/column_reader.c', 'src/reader/batch_reader.c',
          'src/thrift/thrift_decode.c', 'src/thrift/parquet_types.c', 'src/core/arena.c', 'src/core/error.c']
-BUDGET = {'quick': 1800, 'thorough': 3600}
+BUDGET = {'quick': 1500, 'thorough': 3600}
 H = 'harness/e2/c04_file.c'
 STUBS = ['zlib / libzstd: contract stubs (arbitrary status, arbitrary output within the declared capacity)', 'summary: carquet_crc32 = uninterpreted function of the page bytes',
          'stdio and open/fstat/mmap over the in-memory model file system', 'cpuid: no SIMD features (scalar dispatch)', 'snprintf/vsnprintf: writes an empty NUL-terminated string',
@@ -24,14 +24,15 @@ def obligations(tier):
     q = tier == 'quick'
     o = []
     if q:
-        # footer of skeleton 0: every byte position in chunks of 24; data region: every position of the first 96 bytes
-        for w0 in range(0, 240, 24):
-            o.append(win(0, 0, w0, 24, 1, 1, 0))
-        for w0 in range(0, 120, 24):
-            o.append(win(0, 1, w0, 24, 1, 1, 0))
-        o.append(win(0, 0, 0, 24, 10, 1, 1)); o.append(win(0, 0, 0, 24, 10, 1, 2))
-        o.append(win(0, 1, 0, 12, 8, 1, 1)); o.append(win(0, 1, 0, 12, 8, 1, 2))
-        o.append(win(1, 0, 0, 24, 9, 1, 0)); o.append(win(1, 1, 0, 24, 5, 1, 0))
+        # footer of skeleton 0: every byte position (16 obligations x 12 positions = 192 >= footer length); data region: every
+        # position of the first 96 bytes (page headers + bodies of the first chunk); other modes / skeleton 1: strided samples
+        for w0 in range(0, 192, 12):
+            o.append(win(0, 0, w0, 12, 1, 1, 0, 700))
+        for w0 in range(0, 96, 12):
+            o.append(win(0, 1, w0, 12, 1, 1, 0, 700))
+        o.append(win(0, 0, 0, 12, 17, 1, 1, 700)); o.append(win(0, 0, 0, 12, 17, 1, 2, 700))
+        o.append(win(0, 1, 0, 8, 11, 1, 1, 700)); o.append(win(0, 1, 0, 8, 11, 1, 2, 700))
+        o.append(win(1, 0, 0, 12, 19, 1, 0, 700)); o.append(win(1, 1, 0, 12, 9, 1, 0, 700))
     else:
         for skel in (0, 1):
             for w0 in range(0, 320, 16):
